@@ -214,7 +214,7 @@ func (p *Prog) adoptFresh() {
 		// one use of any admissible kind; several uses only as plain calls within one declared function
 		same := true
 		for _, us := range sites {
-			if us.user.Pkg != h.Pkg || us.user.SynRoot() != sites[0].user.SynRoot() || (len(sites) > 1 && us.spawned) {
+			if us.user.Pkg != h.Pkg || (len(sites) > 1 && us.spawned) {
 				same = false
 			}
 			for u := us.user; u != nil; u = u.Parent {
@@ -226,10 +226,9 @@ func (p *Prog) adoptFresh() {
 		if !same {
 			continue
 		}
+		// (a helper called from several functions is read in place in each of them; for the few
+		// purposes that need one owner — the root of its own literals — the first caller stands in)
 		user := sites[0].user
-		if len(sites) > 1 {
-			user = sites[0].user.SynRoot()
-		}
 		h.Adopter = user
 		h.adoptedSpawn = len(sites) == 1 && sites[0].spawned
 		adopted[h] = true
@@ -674,6 +673,13 @@ func (f *Func) spliceInlined(g *cfg.CFG, mayReturn func(*ast.CallExpr) bool, dep
 			}
 		}
 		entryFrom.Succs = []*cfg.Block{hg.Blocks[0]}
+		// `return h(...)`: the helper's return statements are the function's own
+		tailCall := false
+		if len(cont.Nodes) >= 1 {
+			if r, ok := cont.Nodes[0].(*ast.ReturnStmt); ok && len(r.Results) == 1 && Unparen(r.Results[0]) == ast.Expr(site.call) {
+				tailCall = true
+			}
+		}
 		// is the call the branch condition itself (possibly negated)?
 		negated, isCond := false, false
 		if len(cont.Nodes) == 1 && len(cont.Succs) == 2 {
@@ -692,9 +698,22 @@ func (f *Func) spliceInlined(g *cfg.CFG, mayReturn func(*ast.CallExpr) bool, dep
 		if len(cont.Nodes) >= 2 && len(cont.Succs) == 2 {
 			errIdx, nilSucc = errCorrelation(f.Info(), cont.Nodes, site.call)
 		}
+		// likewise for a bool result tested right after the call: `n, ok := h(); if ok {...}`
+		boolIdx, trueSucc := -1, -1
+		if errIdx < 0 && len(cont.Nodes) >= 2 && len(cont.Succs) == 2 {
+			boolIdx, trueSucc = boolCorrelation(f.Info(), cont.Nodes, site.call)
+		}
 		var contNil, contErr *cfg.Block
+		var deadEnds []*cfg.Block
 		mk := func(succ int) *cfg.Block {
-			b := &cfg.Block{Nodes: cont.Nodes, Succs: []*cfg.Block{cont.Succs[succ]}, Index: next, Live: true, Kind: cont.Kind, Stmt: cont.Stmt}
+			// the branch that cannot be taken leads nowhere; the test itself stays, so the edge
+			// that is taken still carries its fact (err == nil / err != nil)
+			dead := &cfg.Block{Index: next, Live: true, Kind: cont.Kind, Stmt: cont.Stmt}
+			next++
+			deadEnds = append(deadEnds, dead)
+			succs := []*cfg.Block{dead, dead}
+			succs[succ] = cont.Succs[succ]
+			b := &cfg.Block{Nodes: cont.Nodes, Succs: succs, Index: next, Live: true, Kind: cont.Kind, Stmt: cont.Stmt}
 			next++
 			return b
 		}
@@ -769,6 +788,17 @@ func (f *Func) spliceInlined(g *cfg.CFG, mayReturn func(*ast.CallExpr) bool, dep
 					}
 				}
 			}
+			if tailCall && ret != nil {
+				// deferred calls of the helper run before the (shared) return
+				hb.Nodes = hb.Nodes[:len(hb.Nodes)-1]
+				for i := len(defers) - 1; i >= 0; i-- {
+					if dominates(defers[i].blk, hb) {
+						hb.Nodes = append(hb.Nodes, defers[i].stmt.Call)
+					}
+				}
+				hb.Nodes = append(hb.Nodes, ret)
+				continue
+			}
 			target := cont
 			if ret != nil {
 				// the return statement becomes the evaluation of its results
@@ -787,6 +817,21 @@ func (f *Func) spliceInlined(g *cfg.CFG, mayReturn func(*ast.CallExpr) bool, dep
 							target = cont.Succs[0]
 						} else {
 							target = cont.Succs[1]
+						}
+					}
+				}
+				if boolIdx >= 0 && boolIdx < len(ret.Results) {
+					if tv, ok := info.Types[ret.Results[boolIdx]]; ok && tv.Value != nil {
+						if tv.Value.String() == "true" {
+							if contNil == nil {
+								contNil = mk(trueSucc)
+							}
+							target = contNil
+						} else {
+							if contErr == nil {
+								contErr = mk(1 - trueSucc)
+							}
+							target = contErr
 						}
 					}
 				}
@@ -821,6 +866,21 @@ func (f *Func) spliceInlined(g *cfg.CFG, mayReturn func(*ast.CallExpr) bool, dep
 				already = true
 			}
 		}
+		if tailCall || contNil != nil || contErr != nil {
+			// `return h(...)` whose helper always returns, or a tested result whose every return was
+			// classified: the uncorrelated continuation is never reached
+			used := false
+			for _, hb := range hg.Blocks {
+				for _, sc := range hb.Succs {
+					if sc == cont {
+						used = true
+					}
+				}
+			}
+			if !used {
+				cont.Live = false
+			}
+		}
 		if !already {
 			g.Blocks = append(g.Blocks, cont)
 		}
@@ -830,6 +890,7 @@ func (f *Func) spliceInlined(g *cfg.CFG, mayReturn func(*ast.CallExpr) bool, dep
 		if contErr != nil {
 			g.Blocks = append(g.Blocks, contErr)
 		}
+		g.Blocks = append(g.Blocks, deadEnds...)
 		g.Blocks = append(g.Blocks, hg.Blocks...)
 		done = append(done, h)
 	}
@@ -1054,6 +1115,10 @@ func errClass(hcf *CFG, ret *ast.ReturnStmt, e ast.Expr) int {
 	if o == nil {
 		return 0
 	}
+	// a package-level error variable is a sentinel such as ErrOldRecord
+	if v, ok := o.(*types.Var); ok && v.Pkg() != nil && v.Parent() == v.Pkg().Scope() && v.Type().String() == "error" {
+		return 2
+	}
 	loc := hcf.LocOf(ret)
 	if !loc.Valid() {
 		return 0
@@ -1071,4 +1136,58 @@ func errClass(hcf *CFG, ret *ast.ReturnStmt, e ast.Expr) int {
 		return 1
 	}
 	return 0
+}
+
+// boolCorrelation recognises `..., ok := call` (first node) followed, at the end of the same
+// block, by the branch condition `ok` or `!ok`; it returns the index of that result and the
+// successor taken when it is true.
+func boolCorrelation(info *types.Info, nodes []ast.Node, call *ast.CallExpr) (idx, trueSucc int) {
+	idx, trueSucc = -1, -1
+	as, ok := nodes[0].(*ast.AssignStmt)
+	if !ok || len(as.Rhs) != 1 || Unparen(as.Rhs[0]) != ast.Expr(call) {
+		return
+	}
+	cond, ok := nodes[len(nodes)-1].(ast.Expr)
+	if !ok {
+		return
+	}
+	x := Unparen(cond)
+	neg := false
+	if u, isNot := x.(*ast.UnaryExpr); isNot && u.Op == token.NOT {
+		x, neg = Unparen(u.X), true
+	}
+	xo := ObjOf(info, x)
+	if _, isID := x.(*ast.Ident); !isID || xo == nil {
+		return
+	}
+	for k, l := range as.Lhs {
+		if lo := ObjOf(info, l); lo != nil && lo == xo {
+			idx = k
+		}
+	}
+	if idx < 0 {
+		return
+	}
+	for _, n := range nodes[1 : len(nodes)-1] {
+		bad := false
+		ast.Inspect(n, func(m ast.Node) bool {
+			if a2, ok := m.(*ast.AssignStmt); ok {
+				for _, l := range a2.Lhs {
+					if lo := ObjOf(info, l); lo != nil && lo == xo {
+						bad = true
+					}
+				}
+			}
+			return !bad
+		})
+		if bad {
+			return -1, -1
+		}
+	}
+	if neg {
+		trueSucc = 1
+	} else {
+		trueSucc = 0
+	}
+	return
 }
